@@ -31,7 +31,7 @@ from . import sym, interp, ghost as gh, contract as ct
 from .sym import Path, set_path, PathAbort, Escape, term, formula
 
 VALUE_ERRORS = (ValueError, AssertionError, ArithmeticError, LookupError)
-QUICK_TIMEOUT_MS = int(os.environ.get("PYVC_TIMEOUT_MS", "20000"))
+QUICK_TIMEOUT_MS = int(os.environ.get("PYVC_TIMEOUT_MS", "40000"))
 
 
 class EngineError(Exception):
@@ -545,12 +545,21 @@ def run_config(contract, cfg, facets="VCSTRN", prime=None, tier="quick", max_pat
                     if P.solver.check() == z3.sat:
                         res.setdefault("path_models", {})[psig] = {
                             k: v for k, v in model_dict(P.solver.model()).items() if k.startswith(("s_", "k_"))}
-            # discharge
+            # discharge.  Clauses of one postcondition are proved in the order they are written; a clause
+            # that has been proved may be used as a lemma by the later ones of the same path (S/E clauses
+            # among themselves, since they share the hypothesis "all triples hold adversarially").
+            proved_se = []
             for nm, extra, goal, hyps_override in obs:
                 if hyps_override is not None:
                     verdict, secs, model, backend = _discharge_standalone(hyps_override, goal, timeout_ms)
                 else:
-                    verdict, secs, model, backend = discharge(P, extra, goal, timeout_ms)
+                    is_se = nm.startswith(("S.", "E."))
+                    verdict, secs, model, backend = discharge(P, list(extra) + (proved_se if is_se else []), goal, timeout_ms)
+                    if verdict == "proved" and not nm.startswith("canary"):
+                        if is_se:
+                            proved_se.append(formula(goal))
+                        elif nm.startswith(("V.", "F.")) and outcome[0] == "ret" and extra == []:
+                            P.assume(formula(goal))
                 res["solver_s"] += secs
                 ob = dict(name=nm, path=psig, verdict=verdict, s=round(secs, 4), backend=backend)
                 if nm.startswith("canary"):
